@@ -272,3 +272,8 @@ def run_mode(chk, replay, mode):
 
 def run(chk, replay):
     run_mode(chk, replay, "read")
+    if not replay:
+        # code -> spec: selections recorded on large generated plotfiles and the repository's assets, judged by
+        # Reader!ReadSpec in OpTrace.tla
+        from harness import optrace
+        optrace.phase(chk, ["read"], "indexing interface on large inputs", 60, 600, assets=["example_plt_3d", "example_plt_2d"], nops=8)
